@@ -51,11 +51,17 @@ type dtVal struct {
 }
 
 type dtInterp struct {
-	info  *types.Info
-	env   map[types.Object]dtVal
-	err   string
-	ret   *bool
-	steps int
+	info   *types.Info
+	env    map[types.Object]dtVal
+	err    string
+	ret    *bool
+	retVal dtVal
+	steps  int
+	ctl    int // 0 none, 1 break, 2 continue (set together with a true result of stmts)
+	depth  int
+	// lookup finds the declaration of a function of the validator's package
+	// (helpers extracted from a validator are interpreted like the validator)
+	lookup func(*types.Func) *ast.FuncDecl
 }
 
 func (it *dtInterp) fail(format string, args ...interface{}) dtVal {
@@ -137,6 +143,13 @@ func (it *dtInterp) expr(e ast.Expr) dtVal {
 				return dtVal{kind: "int", i: int64(len(a.e.props))}
 			}
 		}
+		if it.lookup != nil && it.depth < 6 {
+			if fn := calleeFunc(it.info, x); fn != nil {
+				if hfd := it.lookup(fn); hfd != nil && hfd.Body != nil {
+					return it.call(hfd, x)
+				}
+			}
+		}
 		return it.fail("unsupported call %s", types.ExprString(e))
 	case *ast.UnaryExpr:
 		if x.Op == token.NOT {
@@ -172,6 +185,28 @@ func (it *dtInterp) expr(e ast.Expr) dtVal {
 				return it.fail("unsupported comparison %s", types.ExprString(e))
 			}
 			return dtVal{kind: "bool", b: eq == (x.Op == token.EQL)}
+		case token.LSS, token.LEQ, token.GTR, token.GEQ, token.ADD, token.SUB:
+			l, r := it.expr(x.X), it.expr(x.Y)
+			if it.err != "" {
+				return dtVal{}
+			}
+			if l.kind != "int" || r.kind != "int" {
+				return it.fail("unsupported arithmetic %s", types.ExprString(e))
+			}
+			switch x.Op {
+			case token.LSS:
+				return dtVal{kind: "bool", b: l.i < r.i}
+			case token.LEQ:
+				return dtVal{kind: "bool", b: l.i <= r.i}
+			case token.GTR:
+				return dtVal{kind: "bool", b: l.i > r.i}
+			case token.GEQ:
+				return dtVal{kind: "bool", b: l.i >= r.i}
+			case token.ADD:
+				return dtVal{kind: "int", i: l.i + r.i}
+			default:
+				return dtVal{kind: "int", i: l.i - r.i}
+			}
 		}
 	}
 	return it.fail("unsupported expression %s", types.ExprString(e))
@@ -204,6 +239,7 @@ func (it *dtInterp) stmts(list []ast.Stmt) bool {
 			v := it.expr(x.Results[0])
 			b := v.b
 			it.ret = &b
+			it.retVal = v
 			return true
 		case *ast.IfStmt:
 			if x.Init != nil {
@@ -254,13 +290,164 @@ func (it *dtInterp) stmts(list []ast.Stmt) bool {
 					it.env[identObj(it.info, id)] = dtVal{kind: "prop", p: &seq.e.props[i]}
 				}
 				if it.stmts(x.Body.List) {
+					if it.ctl == 2 {
+						it.ctl = 0
+						continue
+					}
+					if it.ctl == 1 {
+						it.ctl = 0
+						break
+					}
 					return true
 				}
 			}
-		case *ast.SwitchStmt:
-			if x.Init != nil || x.Tag == nil {
-				it.fail("unsupported switch")
+		case *ast.ForStmt:
+			if x.Init != nil {
+				if it.stmts([]ast.Stmt{x.Init}) {
+					return true
+				}
+			}
+		loop:
+			for {
+				it.steps++
+				if it.steps > 10000 {
+					it.fail("too many steps")
+					return true
+				}
+				if x.Cond != nil {
+					c := it.expr(x.Cond)
+					if it.err != "" {
+						return true
+					}
+					if !c.b {
+						break
+					}
+				}
+				if it.stmts(x.Body.List) {
+					switch it.ctl {
+					case 2:
+						it.ctl = 0
+					case 1:
+						it.ctl = 0
+						break loop
+					default:
+						return true
+					}
+				}
+				if x.Post != nil {
+					if it.stmts([]ast.Stmt{x.Post}) {
+						return true
+					}
+				}
+			}
+		case *ast.IncDecStmt:
+			id, ok := x.X.(*ast.Ident)
+			if !ok {
+				it.fail("unsupported inc/dec target")
 				return true
+			}
+			obj := identObj(it.info, id)
+			v := it.env[obj]
+			if v.kind != "int" {
+				it.fail("unsupported inc/dec of %s", id.Name)
+				return true
+			}
+			if x.Tok == token.INC {
+				v.i++
+			} else {
+				v.i--
+			}
+			it.env[obj] = v
+		case *ast.BranchStmt:
+			if x.Label != nil {
+				it.fail("unsupported labelled %s", x.Tok)
+				return true
+			}
+			switch x.Tok {
+			case token.BREAK:
+				it.ctl = 1
+				return true
+			case token.CONTINUE:
+				it.ctl = 2
+				return true
+			}
+			it.fail("unsupported %s", x.Tok)
+			return true
+		case *ast.ExprStmt:
+			it.expr(x.X)
+		case *ast.DeclStmt:
+			gd, ok := x.Decl.(*ast.GenDecl)
+			if !ok || gd.Tok != token.VAR {
+				it.fail("unsupported declaration")
+				return true
+			}
+			for _, sp := range gd.Specs {
+				vs := sp.(*ast.ValueSpec)
+				for i, n := range vs.Names {
+					var v dtVal
+					if i < len(vs.Values) {
+						v = it.expr(vs.Values[i])
+					} else if b, ok := it.info.TypeOf(n).Underlying().(*types.Basic); ok {
+						switch {
+						case b.Info()&types.IsBoolean != 0:
+							v = dtVal{kind: "bool"}
+						case b.Info()&types.IsInteger != 0:
+							v = dtVal{kind: "int"}
+						case b.Info()&types.IsString != 0:
+							v = dtVal{kind: "string"}
+						}
+					}
+					it.env[it.info.Defs[n]] = v
+				}
+			}
+		case *ast.SwitchStmt:
+			if x.Init != nil {
+				if it.stmts([]ast.Stmt{x.Init}) {
+					return true
+				}
+			}
+			if x.Tag == nil {
+				// tagless: the first case with a true expression
+				var def *ast.CaseClause
+				done := false
+				for _, cc := range x.Body.List {
+					cl := cc.(*ast.CaseClause)
+					if cl.List == nil {
+						def = cl
+						continue
+					}
+					hit := false
+					for _, e := range cl.List {
+						if v := it.expr(e); v.b {
+							hit = true
+							break
+						}
+					}
+					if it.err != "" {
+						return true
+					}
+					if hit {
+						done = true
+						if it.stmts(cl.Body) {
+							if it.ctl == 1 {
+								it.ctl = 0
+								break
+							}
+							return true
+						}
+						break
+					}
+				}
+				if !done && def != nil {
+					if it.stmts(def.Body) {
+						if it.ctl == 1 {
+							it.ctl = 0
+						} else {
+							return true
+						}
+					}
+				}
+				continue
 			}
 			tag := it.expr(x.Tag)
 			var def *ast.CaseClause
@@ -273,12 +460,19 @@ func (it *dtInterp) stmts(list []ast.Stmt) bool {
 				}
 				for _, e := range cl.List {
 					v := it.expr(e)
-					if (v.kind == "string" || v.kind == "const") && v.s == tag.s {
+					if (v.kind == "string" || v.kind == "const") && (tag.kind == "string" || tag.kind == "const") && v.s == tag.s {
+						matched = true
+					}
+					if v.kind == "int" && tag.kind == "int" && v.i == tag.i {
 						matched = true
 					}
 				}
 				if matched {
 					if it.stmts(cl.Body) {
+						if it.ctl == 1 {
+							it.ctl = 0
+							break
+						}
 						return true
 					}
 					break
@@ -286,7 +480,11 @@ func (it *dtInterp) stmts(list []ast.Stmt) bool {
 			}
 			if !matched && def != nil {
 				if it.stmts(def.Body) {
-					return true
+					if it.ctl == 1 {
+						it.ctl = 0
+					} else {
+						return true
+					}
 				}
 			}
 		default:
@@ -297,9 +495,48 @@ func (it *dtInterp) stmts(list []ast.Stmt) bool {
 	return false
 }
 
+// call interprets a helper of the validator's package: receiver and parameters
+// are bound to the evaluated arguments, the body runs in a fresh environment.
+func (it *dtInterp) call(hfd *ast.FuncDecl, x *ast.CallExpr) dtVal {
+	env := map[types.Object]dtVal{}
+	if hfd.Recv != nil && len(hfd.Recv.List[0].Names) > 0 {
+		sel, ok := ast.Unparen(x.Fun).(*ast.SelectorExpr)
+		if !ok {
+			return it.fail("unsupported method value %s", types.ExprString(x.Fun))
+		}
+		env[it.info.Defs[hfd.Recv.List[0].Names[0]]] = it.expr(sel.X)
+	}
+	i := 0
+	for _, fl := range hfd.Type.Params.List {
+		for _, n := range fl.Names {
+			if i >= len(x.Args) {
+				return it.fail("unsupported variadic call %s", types.ExprString(x))
+			}
+			env[it.info.Defs[n]] = it.expr(x.Args[i])
+			i++
+		}
+	}
+	if it.err != "" {
+		return dtVal{}
+	}
+	sub := &dtInterp{info: it.info, env: env, lookup: it.lookup, depth: it.depth + 1, steps: it.steps}
+	sub.stmts(hfd.Body.List)
+	it.steps = sub.steps
+	if sub.err != "" {
+		return it.fail("%s", sub.err)
+	}
+	if sub.ret == nil {
+		if hfd.Type.Results == nil {
+			return dtVal{}
+		}
+		return it.fail("helper %s fell off its end", hfd.Name.Name)
+	}
+	return sub.retVal
+}
+
 // runValidator evaluates validator fd on element e. (accepted, panicked, err)
-func runValidator(info *types.Info, fd *ast.FuncDecl, e *dtElem) (bool, string) {
-	it := &dtInterp{info: info, env: map[types.Object]dtVal{}}
+func runValidator(info *types.Info, fd *ast.FuncDecl, e *dtElem, lookup func(*types.Func) *ast.FuncDecl) (bool, string) {
+	it := &dtInterp{info: info, env: map[types.Object]dtVal{}, lookup: lookup}
 	if fd.Recv != nil && len(fd.Recv.List[0].Names) > 0 {
 		it.env[info.Defs[fd.Recv.List[0].Names[0]]] = dtVal{kind: "elem", e: e}
 	}
@@ -365,17 +602,54 @@ func (c *Ctx) runValidatorConsumer(prefix string, tables *plyTables) {
 		return "", false
 	}
 	// (a) validators per element kind
+	// the switch form of the same test: switch element.Name { case "S": ... }
+	elemNameCase := func(cl *ast.CaseClause, sw ast.Node) (string, bool) {
+		st, ok := sw.(*ast.SwitchStmt)
+		if !ok || st.Tag == nil || len(cl.List) != 1 {
+			return "", false
+		}
+		sel, ok := ast.Unparen(st.Tag).(*ast.SelectorExpr)
+		if !ok || sel.Sel.Name != "Name" || !isPLYElementPtr(info.TypeOf(sel.X)) {
+			return "", false
+		}
+		if tv := info.Types[cl.List[0]]; tv.Value != nil && tv.Value.Kind() == constant.String {
+			return constant.StringVal(tv.Value), true
+		}
+		return "", false
+	}
 	validators := map[string]*types.Func{}
 	ast.Inspect(fd.Body, func(n ast.Node) bool {
-		ifs, ok := n.(*ast.IfStmt)
-		if !ok {
+		var kind string
+		var body ast.Node
+		switch x := n.(type) {
+		case *ast.IfStmt:
+			k, ok := elemNameTest(x.Cond)
+			if !ok {
+				return true
+			}
+			kind, body = k, x.Body
+		case *ast.SwitchStmt:
+			for _, st := range x.Body.List {
+				if cl, ok := st.(*ast.CaseClause); ok {
+					if k, ok := elemNameCase(cl, x); ok {
+						for _, bs := range cl.Body {
+							ast.Inspect(bs, func(m ast.Node) bool {
+								if call, ok := m.(*ast.CallExpr); ok {
+									if f := calleeFunc(info, call); f != nil && strings.HasPrefix(f.Name(), "IsStandard") {
+										validators[k] = f
+									}
+								}
+								return true
+							})
+						}
+					}
+				}
+			}
+			return true
+		default:
 			return true
 		}
-		kind, ok := elemNameTest(ifs.Cond)
-		if !ok {
-			return true
-		}
-		ast.Inspect(ifs.Body, func(m ast.Node) bool {
+		ast.Inspect(body, func(m ast.Node) bool {
 			call, ok := m.(*ast.CallExpr)
 			if !ok {
 				return true
@@ -420,6 +694,13 @@ func (c *Ctx) runValidatorConsumer(prefix string, tables *plyTables) {
 			continue
 		}
 		c.analysed("fileformats.PLYElement." + vf.Name())
+		lookup := func(f *types.Func) *ast.FuncDecl {
+			if f.Pkg() != vp.Types {
+				return nil
+			}
+			d, _ := c.funcDecl(f)
+			return d
+		}
 		// candidate property names: string literals compared in the validator
 		nameSet := map[string]bool{"__other__": true}
 		ast.Inspect(vfd.Body, func(n ast.Node) bool {
@@ -437,7 +718,7 @@ func (c *Ctx) runValidatorConsumer(prefix string, tables *plyTables) {
 			for _, lt := range lenChoices {
 				for _, et := range allTypes {
 					e := &dtElem{name: kind, props: []dtProp{{name, lt, et}}}
-					ok, err := runValidator(vp.TypesInfo, vfd, e)
+					ok, err := runValidator(vp.TypesInfo, vfd, e, lookup)
 					nEval++
 					if err != "" {
 						evalErr = err
@@ -450,7 +731,7 @@ func (c *Ctx) runValidatorConsumer(prefix string, tables *plyTables) {
 			}
 		}
 		// element without properties must be rejected without panicking
-		_, err0 := runValidator(vp.TypesInfo, vfd, &dtElem{name: kind})
+		_, err0 := runValidator(vp.TypesInfo, vfd, &dtElem{name: kind}, lookup)
 		key := "validator " + vf.Name() + " for element " + kind
 		switch {
 		case strings.HasPrefix(err0, "PANIC") || strings.HasPrefix(evalErr, "PANIC"):
@@ -536,6 +817,12 @@ func (c *Ctx) runValidatorConsumer(prefix string, tables *plyTables) {
 		for p := parents[ta]; p != nil; child, p = p, parents[p] {
 			if ifs, ok := p.(*ast.IfStmt); ok && child == ast.Node(ifs.Body) {
 				if kind, ok := elemNameTest(ifs.Cond); ok {
+					a.elemKind = kind
+					break
+				}
+			}
+			if cl, ok := p.(*ast.CaseClause); ok && parents[cl] != nil {
+				if kind, ok := elemNameCase(cl, parents[parents[cl]]); ok {
 					a.elemKind = kind
 					break
 				}
